@@ -68,13 +68,18 @@
 (*   OpenConstructsAreReported  at the end of a pass an open IF / SAVE /   *)
 (*                            STRUCT is reported (1470 / 1460 / 1551) and  *)
 (*                            nothing else is                              *)
-(* CONSTANT Off = names of claims switched off (diagnosis only: the        *)
-(* harness finds the violated claim of a rejected trace by re-running the  *)
-(* rejected execution with one claim off; production value {}).            *)
+(* VARIABLE l = position of the current statement in the record of         *)
+(* statements (the wrappers step it); bodies of macros and loops are       *)
+(* ranges of such positions.                                               *)
+(* CONSTANTS OffSet, OffAt: claims switched off at position OffAt          *)
+(* (diagnosis only: the harness finds the violated claim of a rejected     *)
+(* trace by re-running the rejected execution with one claim off at the    *)
+(* rejected event - again TLC decides; production value {} / 0).           *)
 (***************************************************************************)
 EXTENDS Integers, Sequences, FiniteSets, TLC
 
-CONSTANTS Segs, StructSeg, Off
+CONSTANTS Segs, StructSeg, OffSet, OffAt
+VARIABLE l
 
 CA == INSTANCE CondAsm
 AB == INSTANCE AddrBook
@@ -82,8 +87,8 @@ DG == INSTANCE Diag WITH Wrap <- 0
 MP == INSTANCE MacroProc WITH Fixed <- {}, HasAttrs <- TRUE, MaxNum <- 0
 CW == INSTANCE CodeWriter_Trace WITH l <- 0, base <- 0, ri <- 0, off <- 0
 
-On(c) == c \notin Off
-Claim(c, p) == c \in Off \/ p
+On(c) == ~(l = OffAt /\ c \in OffSet)
+Claim(c, p) == ~On(c) \/ p
 
 -----------------------------------------------------------------------------
 (* 1. DG: the diagnostics of one line                                      *)
@@ -114,8 +119,10 @@ UserCands(o, d, e, faulty) ==
      [] e.op = "ERROR"   -> DG!UserERROR(o, d)
      [] OTHER            -> DG!UserFATAL(o, d)} \cup (IF faulty THEN {d} ELSE {})
 
-ErrsDeltaIsDiagCount(dpre, dpost, gs, user) ==
-  Claim("ErrsDeltaIsDiagCount", dpost.err - dpre.err = CountedErrs(gs) + user)
+\* ErrorCount as the stmt record shows it = the counter of the protocol, and it moved by the number of messages of
+\* class error / fatal of this line (+ user: 1 for an executed ERROR / FATAL statement, or WARNING under -Werror)
+ErrsDeltaIsDiagCount(dpre, dpost, e, user) ==
+  Claim("ErrsDeltaIsDiagCount", dpost.err = e.errs /\ dpost.err - dpre.err = CountedErrs(e.dg) + user)
 
 -----------------------------------------------------------------------------
 (* 2. CA: conditional assembly (as CondAsm_Trace), EXITM decided by MP     *)
@@ -298,10 +305,16 @@ Produce(mp, e, pos, ifpre, ifl, quiet) ==
 (* 5. cross-machine claims                                                 *)
 NoCode(e) == \A i \in 1..Len(e.ch) : e.ch[i].n = 0
 Inert(e, ab, nab) == e.ch = <<>> /\ nab = ab
+\* (statements of the macro processor - WasMACRO - are looked at even in a skipped branch: EXITM / SHIFT outside a
+\*  macro and malformed loop headers complain there too; everything else is not even decoded)
 SkippedIsInert(e, ca, ab, nab) ==
-  Claim("SkippedIsInert", (~ca.ifasm /\ ~e.ifasm /\ e.ca = "OTHER" /\ ~e.rec) => Inert(e, ab, nab))
-RecordedIsInert(e, ca, nca, ab, nab) ==
-  Claim("RecordedIsInert", e.rec => (Inert(e, ab, nab) /\ nca.ifasm = ca.ifasm /\ nca.stk = ca.stk))
+  Claim("SkippedIsInert", (~ca.ifasm /\ ~e.ifasm /\ e.ca = "OTHER" /\ ~e.rec)
+                          => (Inert(e, ab, nab) /\ (e.wm \/ e.dg = <<>>) /\ e.sd = <<>>))
+\* (e.rec alone: the header that starts a recording moves nothing either; a line stored INTO a body - recording
+\*  before and after - is not looked at at all: no diagnostic, no definition)
+RecordedIsInert(e, ca, nca, ab, nab, recpre) ==
+  Claim("RecordedIsInert", /\ e.rec => (Inert(e, ab, nab) /\ nca.ifasm = ca.ifasm /\ nca.stk = ca.stk)
+                           /\ (recpre /\ e.rec) => (e.dg = <<>> /\ e.sd = <<>>))
 IfFamilyIsAddressNeutral(e, ab, nab) ==
   Claim("IfFamilyIsAddressNeutral",
         (e.ca \notin {"OTHER", "EXITM"}) => (NoCode(e) /\ nab.pc = ab.pc /\ nab.ph = ab.ph /\ nab.act = ab.act))
@@ -338,4 +351,43 @@ OpenConstructsAreReported(ca, ab, gs) ==
         /\ (ca.stk # <<>>) = HasDiag(gs, DG!NumMissEndif)
         /\ (ab.saveStk # <<>>) = HasDiag(gs, DG!NumNoRestoreFrame)
         /\ (ab.stStk # <<>>) = HasDiag(gs, DG!NumOpenStruct))
+-----------------------------------------------------------------------------
+(* 6. THE COMPOSED STEP: one execution of Produce_Code as a step of every  *)
+(* machine.  s = [ca, ab, mp, cw, d] (states of CondAsm, AddrBook, the     *)
+(* projected macro processor, the stream cursor, the diagnostic counters), *)
+(* e = the regrouped record of the statement (see AsCore_Trace), o = the   *)
+(* option record of Diag, rs = the parsed code file (last pass), Tx(i) =   *)
+(* text of the statement at position i.  Returns the set of states after   *)
+(* the statement that the composed specification allows - empty when the   *)
+(* record contradicts a machine or a cross-machine claim.                  *)
+StmtSucc(Tx(_), rs, o, s, e) ==
+  LET ifpre  == s.ca.ifasm
+      recpre == s.mp.outs # <<>>
+      quiet  == ~HasErr(e.dg)
+      fd     == FoldDiags(o, s.d, e.dg, 1)
+      here   == [nl |-> e.nl, tx |-> e.tx, dp |-> e.dp, em |-> e.em]
+      ds     == IF IsUserOp(e, ifpre, recpre) THEN UserCands(o, fd[2], e, e.dg # <<>>) ELSE {fd[2]}
+      After(c, m, h) ==
+        LET r   == Chunks(rs, h, s.cw, e.ch, 1)
+            nab == BodyAdvance(r[2], e)
+        IN IF /\ r[1]
+              /\ PostOK(nab, e)
+              /\ SkippedIsInert(e, s.ca, s.ab, nab)
+              /\ RecordedIsInert(e, s.ca, c, s.ab, nab, recpre)
+              /\ IfFamilyIsAddressNeutral(e, s.ab, nab)
+              /\ ErrorLineEmitsNoCode(e, ifpre, recpre)
+              /\ LabelValueIsExec(e, s.ab, ifpre, recpre)
+           THEN {[ca |-> [c EXCEPT !.errs = 0, !.warns = 0], ab |-> nab, mp |-> m, cw |-> r[3], d |-> d2] :
+                   d2 \in {x \in ds : ErrsDeltaIsDiagCount(s.d, x, e, x.err - fd[2].err)}}
+           ELSE {}
+      Produced(tg, c) ==
+        {m \in Produce([s.mp EXCEPT !.tags = tg], e, l, ifpre, Len(s.ca.stk), quiet) :
+           Claim("TagDepthIsMachineDepth", Len(m.tags) = e.tagd) /\ (m.outs # <<>>) = e.rec}
+      Selected(tg) ==
+        {c \in CACands(s.ca, tg, e) : CAMatches(c, e) /\ MachineErrorIsReported(s.ca, c, e.dg)}
+  IN IF ~fd[1] THEN {}
+     ELSE UNION {UNION {UNION {UNION {After(c, m, h) : h \in AfterHandler(s.ab, e, quiet)}
+                               : m \in Produced(tg, c)}
+                        : c \in Selected(tg)}
+                 : tg \in Deliver(Tx, s.mp.tags, Append(e.pre, here), 1)}
 =============================================================================
